@@ -57,6 +57,18 @@ def enc_specs():
                     "mac_final": ("outinput", "r_mac_final", I32, {2: ("n_final", I32)}, []),
                     "mac_cleanup": ("outinput", "r_mac_cleanup", I32, {}, [])},
              oracles=["mac_size"], oracle_arity={"mac_size": 1}),
+        dict(name="enc_encrypt", named_free=True,
+             inputs=[M("cipher"), M("mac"), ("c.inner_len", "inner_len"), ("c.inner_mem_len", "inner_mem_len"), ("c.mac_len", "mac_len"),
+                     ("conf.dek_key_len", "dek_key_len"), ("conf.dek_key", "dek_key_ptr"), ("c.inner", "inner_ptr"), ("c.inner_mem", "inner_mem_ptr"),
+                     ("malloc_ret", "malloc_ret")],
+             calls={"m_msg_set_err": ("event", -1, [1]), "strdup": ("ignore", 1), "strdupf": ("ignore", 1), "log_msg": ("ignore", 0),
+                    "mac_size": ("oracle", [0]), "cipher_block_size": ("oracle", [0]),
+                    "mac_block": ("outinput", "r_mac_block", I32, {4: ("n_dek", I32)}, [2, 6]),
+                    "cipher_init": ("outinput", "r_cipher_init", I32, {}, [1, 4]),
+                    "cipher_update": ("outinput", "r_cipher_update", I32, {2: ("n_upd", I32)}, [4]),
+                    "cipher_final": ("outinput", "r_cipher_final", I32, {2: ("n_fin", I32)}, []),
+                    "cipher_cleanup": ("outinput", "r_cipher_cleanup", I32, {}, [])},
+             oracles=["mac_size", "cipher_block_size"], oracle_arity={"mac_size": 1, "cipher_block_size": 1}),
         dict(name="enc_compress", cursors={"c.outer_zip_ref": "zipref"}, named_free=True,
              inputs=[M("zip"), ("c.inner_len", "inner_len"), ("c.inner_mem_len", "inner_mem_len"), ("c.inner", "inner_ptr"),
                      ("c.inner_mem", "inner_mem_ptr"), ("malloc_ret", "malloc_ret")],
